@@ -227,6 +227,21 @@ theorem chunk_eq {P : AdvP} (hP : P.Ok) (h4 : P.lookahead = 4) (data : ByteArray
     | none => simp only []; exact (stores_none_of_win7 h4 hw (hc 3 (by omega)) st).symm
     | some w7 => simp only []; exact quad_eq_stores hP h4 hw hc st
 
+/-- with exactly sized tables the prefix slices are the whole tables -/
+theorem onTables_exact {P : AdvP} {st : AdvSt} (hsz : sizesAsserted P st = true)
+    (f : AdvSt → Option AdvSt) : onTables P st f = f st := by
+  obtain ⟨num, buckets⟩ := st
+  simp only [sizesAsserted, Bool.and_eq_true, beq_iff_eq] at hsz
+  obtain ⟨h1, h2⟩ := hsz
+  unfold onTables
+  have e1 : P.bucketSize * (1 <<< P.blockBits) = buckets.size := h2.symm
+  have e2 : P.bucketSize = num.size := h1.symm
+  simp only [e1]
+  simp only [e2, Nat.lt_irrefl, or_self, if_false, Array.extract_size]
+  cases f ⟨num, buckets⟩ with
+  | none => rfl
+  | some st' => simp
+
 /-- `StoreRange` of an `AdvHasher` is the fold of `Store` -/
 theorem storeRange_eq_fold {P : AdvP} (hP : P.Ok) (data : ByteArray) (k s e : Nat) (st : AdvSt)
     (hsz : sizesAsserted P st = true) :
@@ -238,7 +253,7 @@ theorem storeRange_eq_fold {P : AdvP} (hP : P.Ok) (data : ByteArray) (k s e : Na
         = fun c y => forRange (store P data (2 ^ k - 1)) (s + c * 4) 4 y := by
       funext c y; exact chunk_eq hP h4 data k s c y
     have hge' : e ≥ s + 4 * 2 := by have := hge.1; rw [h4] at this; exact this
-    simp only [h4, hge', and_self, if_true, hsz, hfun]
+    simp only [h4, hge', and_self, if_true, onTables_exact hsz, hfun]
     rw [forRange_chunks (store P data (2 ^ k - 1)) 4 s ((e - s) / 4) 0 st]
     simp only [Nat.zero_mul, Nat.add_zero]
     have hsplit : e - s = (e - s) / 4 * 4 + (e - (s + (e - s) / 4 * 4)) := by omega
@@ -286,7 +301,7 @@ theorem bulkStoreRange_eq_fold {P : AdvP} (hP : P.Ok) (data : ByteArray) (mask s
   by_cases hge : mask = USIZE_MAX ∧ e > s + 32 ∧ P.lookahead = 4
   · obtain ⟨hm, hgt, h4⟩ := hge
     subst hm
-    simp only [hgt, h4, and_self, if_true, hsz]
+    simp only [hgt, h4, and_self, if_true, onTables_exact hsz]
     rw [forRange_congr (g := fun c y => forRange (store P data USIZE_MAX) (s + c * 32) 32 y)
       ((e - s) / 32) 0 st]
     · rw [forRange_chunks (store P data USIZE_MAX) 32 s ((e - s) / 32) 0 st]
